@@ -100,7 +100,10 @@ def findContent (f : FileData) : M Nat := do
     let nameLen ← readU16
     let extraLen ← readU16
     let ds := f.headerStart.toNat + 30 + nameLen.toNat + extraLen.toNat
-    if ds ≥ 18446744073709551616 then M.panic "read.rs:201 data_start overflow" else do
+    -- read.rs:229 `data.header_start + magic_and_header + file_name_length + extra_field_length` (checked `u64`
+    -- additions; the panic site carries the translator's name for an overflowing checked operation, so that
+    -- `Tie/ReaderGlue.tie_find_content` is an equation also on this path)
+    if ds ≥ 18446744073709551616 then M.panic "rs2lean: checked operation" else do
       let _ ← seek (.start ds)
       pure ds
 
